@@ -88,6 +88,9 @@ type State struct {
 	stack []ssa.Instruction
 	// phiSrc records which incoming value each φ took on this path
 	phiSrc map[*ssa.Phi]ssa.Value
+	// cellVal records, per local cell, the SSA value last stored into it on this path (identity, where cells
+	// holds the abstract content): a named result assigned from a call and read back is that call's result
+	cellVal map[ssa.Value]ssa.Value
 }
 
 func (s *State) clone() *State {
@@ -105,6 +108,12 @@ func (s *State) clone() *State {
 	}
 	for k, v := range s.env {
 		n.env[k] = v
+	}
+	if len(s.cellVal) > 0 {
+		n.cellVal = map[ssa.Value]ssa.Value{}
+		for k, v := range s.cellVal {
+			n.cellVal[k] = v
+		}
 	}
 	for k, v := range s.cells {
 		n.cells[k] = v
@@ -218,6 +227,26 @@ func (s *State) Eval(v ssa.Value) AVal {
 			if isNillable(x) {
 				return AVal{K: ANil}
 			}
+			// the zero value of a struct type: every field is its zero value
+			if stt, ok := x.Type().Underlying().(*types.Struct); ok {
+				out := AVal{K: AStruct, S: map[int]AVal{}}
+				for i := 0; i < stt.NumFields(); i++ {
+					switch ft := stt.Field(i).Type().Underlying().(type) {
+					case *types.Basic:
+						switch {
+						case ft.Info()&types.IsBoolean != 0:
+							out.S[i] = ABool(false)
+						case ft.Info()&types.IsInteger != 0:
+							out.S[i] = AInt(0)
+						case ft.Info()&types.IsString != 0:
+							out.S[i] = AStr("")
+						}
+					case *types.Pointer, *types.Interface, *types.Map, *types.Slice, *types.Chan, *types.Signature:
+						out.S[i] = AVal{K: ANil}
+					}
+				}
+				return out
+			}
 			return AVal{}
 		}
 		return AVal{K: AConst, C: x.Value}
@@ -320,8 +349,8 @@ func (s *State) Eval(v ssa.Value) AVal {
 
 func isNillable(c *ssa.Const) bool {
 	switch c.Type().Underlying().(type) {
-	case interface{ NumMethods() int }:
-		return true
+	case *types.Struct, *types.Array:
+		return false // a zero aggregate, not nil
 	}
 	return true
 }
@@ -517,6 +546,10 @@ func (e *Explorer) instrs(fn *ssa.Function, b *ssa.BasicBlock, from int, st *Sta
 			switch a := x.Addr.(type) {
 			case *ssa.Alloc:
 				st.cells[a] = val
+				if st.cellVal == nil {
+					st.cellVal = map[ssa.Value]ssa.Value{}
+				}
+				st.cellVal[a] = x.Val
 				// a whole struct value put into a local: its fields are what the value says
 				if stt, ok := Deref(a.Type()).Underlying().(*types.Struct); ok {
 					base := Prov(a)
@@ -530,10 +563,15 @@ func (e *Explorer) instrs(fn *ssa.Function, b *ssa.BasicBlock, from int, st *Sta
 					}
 				}
 			case *ssa.FreeVar:
+				if st.cellVal == nil {
+					st.cellVal = map[ssa.Value]ssa.Value{}
+				}
 				if bnd := freeVarBinding(a); bnd != nil {
 					st.cells[bnd] = val
+					st.cellVal[bnd] = x.Val
 				} else {
 					st.cells[a] = val
+					st.cellVal[a] = x.Val
 				}
 			case *ssa.FieldAddr:
 				st.fields[AccessPath(a).String()] = val
@@ -726,6 +764,20 @@ func (e *Explorer) inlinable(c *ssa.CallCommon, st *State) *ssa.Function {
 			}
 		}
 	}
+	if callee == nil && !c.IsInvoke() {
+		// a call of a function value that is, on this path, a known closure, function or bound method
+		// (a helper's func parameter bound by the caller)
+		if _, static := c.Value.(*ssa.Function); !static {
+			switch r := st.Root(c.Value).(type) {
+			case *ssa.MakeClosure:
+				if f, ok := r.Fn.(*ssa.Function); ok {
+					callee = e.P.Unwrap(f)
+				}
+			case *ssa.Function:
+				callee = e.P.Unwrap(r)
+			}
+		}
+	}
 	if callee == nil {
 		cs := e.P.Callees(c)
 		if len(cs) != 1 {
@@ -802,11 +854,36 @@ func (e *Explorer) inlineV(callee *ssa.Function, site ssa.Instruction, c *ssa.Ca
 		}
 	}
 	// a closure's free variables are bound where the closure was made
-	for _, src := range Sources(c.Value) {
-		if mc, ok := src.(*ssa.MakeClosure); ok && mc.Fn == callee {
+	closures := Sources(c.Value)
+	if !c.IsInvoke() {
+		if mc, ok := st.Root(c.Value).(*ssa.MakeClosure); ok {
+			closures = append(closures, mc)
+		}
+	}
+	for _, src := range closures {
+		mc, ok := src.(*ssa.MakeClosure)
+		if !ok {
+			continue
+		}
+		if mc.Fn == callee {
 			for i, fv := range callee.FreeVars {
 				if i < len(mc.Bindings) {
 					st2.bind[fv] = mc.Bindings[i]
+				}
+			}
+		} else if f, isF := mc.Fn.(*ssa.Function); isF && f.Synthetic != "" && e.P.Unwrap(f) == callee && len(mc.Bindings) == 1 && len(callee.Params) == len(args)+1 {
+			// a bound method value x.m: the receiver is the closure's one binding, the arguments follow
+			recv := callee.Params[0]
+			st2.bind[recv] = mc.Bindings[0]
+			if a := st.Eval(mc.Bindings[0]); a.K != AUnknown {
+				st2.env[recv] = a
+			}
+			for i, p := range callee.Params[1:] {
+				st2.bind[p] = args[i]
+				if a := st.Eval(args[i]); a.K != AUnknown {
+					st2.env[p] = a
+				} else {
+					delete(st2.env, p)
 				}
 			}
 		}
@@ -877,10 +954,31 @@ func (e *Explorer) NewState(seed map[ssa.Value]AVal) *State {
 // Root maps a value to the value it denotes in the outermost explored
 // function: parameters and free variables of inlined callees are replaced by
 // what they were bound to at the call.
+// cellLoad: v is a load of a local cell with a value recorded on this path.
+func (s *State) cellLoad(v ssa.Value) (ssa.Value, bool) {
+	u, ok := v.(*ssa.UnOp)
+	if !ok || u.Op != token.MUL || len(s.cellVal) == 0 {
+		return nil, false
+	}
+	cell := u.X
+	if fv, isFV := cell.(*ssa.FreeVar); isFV {
+		if b := freeVarBinding(fv); b != nil {
+			cell = b
+		}
+	}
+	cv, ok := s.cellVal[cell]
+	return cv, ok && cv != nil
+}
+
 func (s *State) Root(v ssa.Value) ssa.Value {
 	for i := 0; i < 16; i++ {
 		all := ResolveAll(v)
 		if len(all) != 1 {
+			// a cell written in several places: what this path stored last
+			if cv, ok := s.cellLoad(v); ok {
+				v = cv
+				continue
+			}
 			return v
 		}
 		r := all[0]
@@ -902,6 +1000,11 @@ func (s *State) RootChain(v ssa.Value) []ssa.Value {
 	for i := 0; i < 16; i++ {
 		all := ResolveAll(v)
 		if len(all) != 1 {
+			if cv, ok := s.cellLoad(v); ok {
+				out = append(out, cv)
+				v = cv
+				continue
+			}
 			return out
 		}
 		r := all[0]
